@@ -15,7 +15,21 @@ ID = "C12"
 BIN = ["gp", "op", "ip", "lc", "rc", "sp", "cp", "acp", "add", "sub", "rp", "sw", "proj", "div"]
 UN = ["neg", "reverse", "involute", "conjugate", "normsq", "hodge", "unhodge", "inv", "polarity", "outerexp", "norm", "normalized"]
 NAMES = ["x10", "x2", "X3", "a", "B", "x1", "z", "Y", "x20", "b1", "A1", "k", "c12", "c2", "W", "m"]
-FORMS = ["symbol", "symbol", "string", "expr+1", "expr*2", "hidden0+s", "num", "num", "float", "sympy-number"]
+FORMS = ["symbol", "symbol", "string", "expr+1", "expr*2", "hidden0+s", "num", "num", "float", "sympy-number", "symbolsub"]
+
+
+def _psym():
+    """A Symbol subclass (like symfit's Parameter, the use case of the `symbolcls` option): sympy orders symbols of different
+    classes by class first, names second."""
+    import sympy
+    global _PSYM
+    try:
+        return _PSYM
+    except NameError:
+        class Parameter(sympy.Symbol):
+            pass
+        _PSYM = Parameter
+        return _PSYM
 RULE = ("case = (algebra config d<=3 quick / d<=4 thorough, operator from 14 binary + 10 unary incl. inverse and division, "
         "ordered key tuples <= 5 blades (<= 3 for inv/div/sw/proj), and per coefficient a form: sympy Symbol, the same given "
         "as a string, s+1, 2*s, a Fraction or a float; symbol names drawn from a pool whose name order differs from creation "
@@ -96,6 +110,8 @@ PROGS = {
     "sqrt(a*b)": lambda a, b, c: (a * b).sqrt(),
     "norm(a*b)": lambda a, b, c: (a * b).norm(),
     "a+b*b+c*c": lambda a, b, c: a + b * b + c * c,
+    "inv(a*b-b*a+c)": lambda a, b, c: (a * b - b * a + c).inv(),
+    "c/(a*b-b*a+c)": lambda a, b, c: c / (a * b - b * a + c),
 }
 TEMP_NAMES = ["x0", "x1", "x2", "x3", "x4", "x5", "_Dummy_1", "x"]
 
@@ -114,7 +130,16 @@ def _prog_cases(draw, tier):
         o = draw(S.operand(d, classes=classes, max_len=cap, min_len=1, zero_prob=0.0))
         forms = [draw(st.sampled_from(["symbol", "symbol", "symbol", "num", "expr*2"])) for _ in o["keys"]]
         return {"keys": o["keys"], "vals": o["vals"], "forms": forms, "names": [names.pop(0) for _ in o["keys"]]}
-    if prog in ("sqrt(a*b)", "norm(a*b)"):
+    if prog in ("inv(a*b-b*a+c)", "c/(a*b-b*a+c)"):
+        # d = 4: a*b - b*a is a bivector whose scalar part cancels identically; with c on the complementary plane the operand of the
+        # inverse is a non-simple homogeneous element (symbolically: two blades; numerically: the same plus a stored zero scalar)
+        cfg = {"sig": [draw(st.sampled_from([1, -1])) for _ in range(4)], "start": None, "basis": None}
+        i_, j_, k_, l_ = draw(st.permutations([0, 1, 2, 3]))
+        mk1 = lambda ks: {"keys": list(ks), "vals": [draw(S.fracs(nonzero=True)) for _ in ks], "forms": ["symbol"] * len(ks),
+                          "names": [names.pop(0) for _ in ks]}
+        # a, b: vectors in one plane (a*b and b*a both have a scalar part, which cancels), c: the blade of the complementary plane
+        a, b, c = mk1([1 << i_, 1 << j_]), mk1([1 << j_, 1 << i_]), mk1([(1 << k_) | (1 << l_)])
+    elif prog in ("sqrt(a*b)", "norm(a*b)"):
         # parallel blades: a*b is a scalar that is a PRODUCT of symbols
         k = draw(st.integers(1, 2 ** d - 1))
         a = {"keys": [k], "vals": [draw(S.fracs(nonzero=True))], "forms": ["symbol"], "names": [names.pop(0)]}
@@ -149,10 +174,10 @@ def _build(alg, opnd, valuation, syms):
             svals.append(float(frac(v)))
             nvals.append(float(frac(v)))
         else:
-            s = sympy.Symbol(name)
+            s = sympy.Symbol(name) if form != "symbolsub" else _psym()(name)
             syms.add(name)
             val = valuation[name]
-            if form == "symbol":
+            if form in ("symbol", "symbolsub"):
                 svals.append(s)
                 nvals.append(val)
             elif form == "string":
@@ -225,6 +250,7 @@ def evaluate(case):
         used += 1
         # (i) sympy substitution
         subsmap = {sympy.Symbol(n): sympy.Rational(v.numerator, v.denominator) for n, v in valuation.items()}
+        subsmap.update({_psym()(n): sympy.Rational(v.numerator, v.denominator) for n, v in valuation.items()})
         got = {}
         for k, v in rsd.items():
             sv = sympy.sympify(v).subs(subsmap) if hasattr(v, "subs") or isinstance(v, sympy.Basic) else v
